@@ -52,18 +52,51 @@ CHECKS = {
             "Lean 4 proof (pointwise characterisation) + differential correspondence"),
 }
 
-NOT_YET = {
-    "C05": "check under construction (stream front-end refinement model not built yet)",
-    "C06": "check under construction (result collector model not built yet)",
-    "C07": "check under construction (config layout model not built yet)",
-    "C15": "check under construction (carrier normalisation model not built yet)",
-    "C16": "check under construction (monotonicity theorems not built yet)",
-    "C17": "check under construction (invariance/locality theorems not built yet)",
-    "C18": "check under construction (fault isolation model not built yet)",
-    "C19": "check under construction (store model not built yet)",
-    "C20": "check under construction (expression evaluator model not built yet)",
-}
+NOT_YET = {}
 
+CHECKS.update({
+    "C05": ("Theorems C05_numpy_mask, C05_pandas_mask, C05_xarray_mask, C05_frontends_agree, C05_selectRows(_zip): each front end's "
+            "subsetting mechanism equals starting <= t < ending for every window and time axis (pandas: distinct row labels), and the "
+            "mask restricts every column alike; the correspondence runs every front end on generated tables / configs and compares the "
+            "yielded ContextResults and a probe test's received arguments with direct calls of the real tests on the rows IoosQc.specMask "
+            "selects. What a test returns on those rows is C03-C14's business.",
+            "Lean 4 proof (refinement of each front end's window mechanism to the specification mask) + differential correspondence"),
+    "C06": ("Theorems scatter_getD, C06_collect_spec, C06_dict_spec, C06_order_independent, C06_main: numpy boolean-mask assignment "
+            "folded over any sequence of context results puts each value on the row of its rank; order independent for disjoint windows; "
+            "list and dict form agree. Correspondence on synthetic and stream-yielded ContextResult sequences in all / random orders.",
+            "Lean 4 proof (invariant of the collecting fold, permutation invariance) + differential correspondence"),
+    "C07": ("Theorems C07_context, C07_layout_contexts/context/streams/modules, C07_depth_*, C07_unknown_skipped, C07_main: the layout "
+            "dispatch of Config on the parsed tree yields one call per configured (stream, module, test) for all four layouts. The eight "
+            "carriers (YAML / JSON / files / xarray attributes) are decoded by third-party code and are covered by the correspondence "
+            "only (12 carriers x 4 layouts on generated configurations).",
+            "Lean 4 proof (refinement: typed configuration -> written tree -> calls) + differential correspondence over carriers"),
+    "C15": ("Theorems C15_data_partial, C15_time, C15_factor, C15_main (+ witness C15_data_bad_witness for known finding F-11): branch "
+            "logic of the input normalisation; that numpy / pandas coercions behave as modelled is checked by running every carrier of "
+            "each logical case on the real functions (13 data carriers, 11 time carriers, list / tuple spans).",
+            "Lean 4 proof (normalisation factors through the denotation; partial: F-11 class excluded) + differential correspondence"),
+    "C16": ("Theorem C16_main (from C16_gross, _valid, _location, _climatology, _spike, _roc, _flat, _atten, _density, _speed): for every "
+            "ordered pair of parameter sets accepted by IoosQc.stricter no flag improves and the UNKNOWN / MISSING set is unchanged; the "
+            "same predicate is evaluated on pairs of runs of the real functions.",
+            "Lean 4 proof (monotonicity of every threshold-driven test) + differential correspondence on (loose, strict) pairs"),
+    "C17": ("Theorem C17_main (17 invariance theorems C17_add_*, C17_neg_*, C17_shift_*, C17_both_*, C17_reverse_spike and the locality "
+            "theorem C17_locality with per-test lemmas): exact invariance under offsets / negation / time shifts / reversal and locality "
+            "of single-point perturbations; transformations are rebuilt in Lean (applyT) and executed on the real functions.",
+            "Lean 4 proof (algebraic invariances over Q, locality by index analysis) + differential correspondence on transformed pairs"),
+    "C18": ("Theorems C18_isolation, C18_insert_fault(s), C18_alone, C18_fault_silent, C18_main: in the model every configured entry is "
+            "evaluated independently, so failing entries drop out; the theorems are true by construction of a state-free model and the "
+            "weight is carried by the correspondence: every fault kind at random positions on every front end, collected results compared "
+            "with each healthy test configured alone.",
+            "Lean 4 proof (independence of entries in the run model) + fault-injection correspondence on all front ends"),
+    "C19": ("Theorems C19_cfSafe_charset, C19_plain_name, C19_kept_iff, C19_main: cf_safe_name output alphabet for every string, "
+            "include / exclude semantics, and the save loop writes exactly the axis, data and one flag column per kept result when names "
+            "do not collide (collisions = known finding F-18); correspondence on PandasStore.save / compute_aggregate over real stream runs.",
+            "Lean 4 proof (invariant of the save loop, character-level lemma) + differential correspondence"),
+    "C20": ("Theorems evalRev_compile, C20_eval_history, C20_main, C20_history_irrelevant: the postfix stack machine returns the ordinary "
+            "arithmetic value of the expression on top of ANY stack content (history independence for all histories); validator and "
+            "creator are executable models checked by correspondence; pyparsing's grammar is third-party (expressions are rendered by the "
+            "harness with random redundant parentheses / spacing and parsed by the real parser).",
+            "Lean 4 proof (compiler correctness of the postfix evaluation, for every stack prefix) + differential correspondence over histories"),
+})
 
 def main():
     import sys
